@@ -1146,7 +1146,7 @@ class Proto:
                 if x is not None and y is not None:
                     val = ('bool', int(x == y))
             if val and neg:
-                val = ('not', val)
+                val = ('bool', 1 - val[1]) if val[0] == 'bool' else ('not', val)
             return done(st, val)
         if name.endswith('::VecDeque::len') or name.endswith('::VecDeque::is_empty'):
             e = fn.expr_of_operand(args[0])
